@@ -33,7 +33,8 @@ def plan(tier):
                 'over a copy of the initial database; per-request identity/version is asserted at every policy decision, '
                 'operation dispatch and response build; a cell is (clients, overlap class, linearisation order class)',
         'min_monitor': {'histories_linearised': 150, 'identity_hook_evaluations': 3000, 'yields_injected': 5000,
-                        'overlapping_request_pairs': 200, 'lock_contentions': 50},
+                        'overlapping_request_pairs': 200, 'lock_contentions': 50,
+                        'codec_race_answers_checked': 1500},
         'assumptions': ['stamps are taken at the fake connection (frame fully received / sendall) from one counter',
                         'server-generated key bytes are masked in responses and stores',
                         'interleavings the injected yields did not produce are not covered'],
@@ -42,7 +43,7 @@ def plan(tier):
 
 def cases(tier, seed):
     n = 400 if tier == 'quick' else 4000
-    return [{'hist': i} for i in range(n)]
+    return [{'hist': i} for i in range(n)] + [{'codec': i} for i in range(16 if tier == 'quick' else 160)]
 
 
 class CountingLock(object):
@@ -102,7 +103,7 @@ class StampedConnection(rig.FakeConnection):
         rig.FakeConnection.sendall(self, data)
 
 
-def client_requests(rng, ci, ident, version, shared, hist, hot=False):
+def client_requests(rng, ci, ident, version, shared, hist, hot=False, bad20=0.3):
     reqs = []
     n = rng.randrange(3, 8) if not hot else rng.randrange(5, 10)
     tag = 'h%d-c%d' % (hist, ci)
@@ -163,7 +164,7 @@ def client_requests(rng, ci, ident, version, shared, hist, hot=False):
         except Exception:
             continue
         reqs.append(data)
-        if version >= (2, 0) and rng.random() < 0.3:
+        if version >= (2, 0) and rng.random() < bad20:
             # a KMIP 2.0 request carrying an attribute that KMIP 2.0 no longer has (Operation Policy Name, written the
             # way a client would): the session's decoder refuses it - whatever other sessions are decoding meanwhile
             try:
@@ -224,7 +225,118 @@ def dump_for_compare(path, base_max, generated):
     return d
 
 
+def run_codec_race(ctx, case):
+    """Sessions decode requests and encode answers outside the engine lock, so whatever the codec keeps at module level is
+    shared by the session threads.  Volume instead of variety: three to five sessions, each with a long stream of
+    requests that change nothing - reads of attributes under KMIP 2.0 and 1.x, and KMIP 2.0 / 1.x requests the decoder must
+    refuse for the version they are sent under (an attribute of another version inside them).  Every read is answered as
+    it is when the session is alone, every such request is refused as an invalid message - whatever the other sessions
+    are decoding or encoding at that moment."""
+    import random as _random
+    from kv.monitors.yields import YieldInjector
+    rng = ctx.rng()
+    rig.install_clock(rig.VClock(step=0))
+    with rig.scratch_dir() as d:
+        srv = rig.Server(d + '/db.sqlite')
+        try:
+            objs = [store.register(srv, 'sym', 'alice', rng, policy='open', names=['codec-%d' % i, 'codec-b-%d' % i], groups=['cg'],
+                                   asi=[('cns', 'cd')], state='pre') for i in range(3)]
+            if any(o is None for o in objs):
+                ctx.unsure('setup of the codec race history failed')
+                return
+            INVALID = E.ResultReason.INVALID_MESSAGE.value
+
+            def bad_frame(version, name):
+                # an attribute the version does not have, written the way a client would
+                try:
+                    if version >= (2, 0):
+                        tree = T.decode(rig.encode_request(rig.build_request(version, [op_create(names=[name])]), version), strict=False)
+                        extra = rng.choice(((0x42005D, T.TEXT, 'open'), (0x42005D, T.TEXT, 'default')))
+                        for p_, it in T.walk(tree):
+                            if it[0] == 0x420125 and it[1] == T.STRUCTURE:
+                                tree = T.replace_at(tree, p_, (it[0], it[1], list(it[2]) + [extra]))
+                                break
+                        data = T.encode(tree)
+                    else:
+                        return None
+                    try:
+                        rig.decode_request(data)
+                        return None
+                    except Exception:
+                        return data
+                except Exception:
+                    return None
+            nsess = rng.choice((3, 4, 5))
+            versions = [(2, 0), (2, 0)] + [rng.choice(((2, 0), (1, 2), (1, 4), (2, 0))) for _ in range(nsess - 2)]
+            streams, kinds = [], []
+            for si, v in enumerate(versions):
+                frames, ks = [], []
+                for j in range(rng.randrange(60, 120)):
+                    if si == 0 and rng.random() < 0.7:
+                        b = bad_frame(v, 'codec-bad-%d-%d' % (si, j))
+                        if b is not None:
+                            frames.append(b)
+                            ks.append('refuse')
+                            continue
+                    o = rng.choice(objs)
+                    op = rng.choice((op_get_attributes(o.uid), op_get_attributes(o.uid), op_get_attribute_list(o.uid),
+                                     op_get_attributes(o.uid, ['Name', 'Object Group', 'Operation Policy Name', 'Sensitive']), op_locate()))
+                    frames.append(rig.encode_request(rig.build_request(v, [op]), v))
+                    ks.append('read')
+                streams.append(frames)
+                kinds.append(ks)
+            cert = rig.make_cert(('alice',), 'client')
+            alone = []
+            for frames in streams:
+                sent, esc = rig.session_roundtrip(srv.engine, b''.join(frames), cert, _random.Random(1), 'exact')
+                alone.append([rig.Result(x).norm() for x in sent] if esc is None else None)
+            results = [None] * nsess
+
+            def session(si):
+                try:
+                    results[si] = rig.session_roundtrip(srv.engine, b''.join(streams[si]), cert, _random.Random(si), 'large')
+                except BaseException as e:      # noqa
+                    results[si] = ([], e)
+            threads = [threading.Thread(target=session, args=(si,)) for si in range(nsess)]
+            with YieldInjector(_random.Random(rng.getrandbits(32)), rng.choice((0.01, 0.03, 0.1)), where='/kmip/core/', tool=5, name='kv-c10-codec') as yi:
+                for t in threads:
+                    t.start()
+                for t in threads:
+                    t.join(120)
+            if any(t.is_alive() for t in threads):
+                ctx.unsure('a session thread of a codec race history did not finish within 120 s')
+                return
+            ctx.ev()
+            ctx.count('codec_race_histories')
+            ctx.count('yields_injected', yi.yields)
+            ctx.cell('codec', nsess, '+'.join('%d.%d' % v for v in versions))
+            for si in range(nsess):
+                sent, esc = results[si] if results[si] else ([], RuntimeError('no result'))
+                if esc is not None or len(sent) != len(streams[si]) or alone[si] is None:
+                    if esc is not None and alone[si] is not None:
+                        ctx.violation('codec-race|escaped|%s' % type(esc).__name__, 'a session running beside others left its message loop with %s: %s'
+                                      % (type(esc).__name__, str(esc)[:200]), None)
+                    continue
+                for j, x in enumerate(sent):
+                    ctx.count('codec_race_answers_checked')
+                    r = rig.Result(x)
+                    if kinds[si][j] == 'refuse':
+                        if not (len(r.items) == 1 and r.items[0]['status'] != 0 and r.items[0]['reason'] == INVALID):
+                            ctx.violation('codec-race|accepted|%d.%d' % versions[si], 'a KMIP %d.%d request carrying an attribute that version does not '
+                                          'have is answered %s while other sessions decode and encode (alone it is refused as an invalid message)'
+                                          % (versions[si] + (r.brief(),)), {'versions': versions})
+                            break
+                    elif r.norm() != alone[si][j]:
+                        ctx.violation('codec-race|read|%d.%d' % versions[si], 'a read under KMIP %d.%d is answered differently beside other sessions: %s'
+                                      % (versions[si] + (r.brief(),)), {'versions': versions})
+                        break
+        finally:
+            srv.close()
+
+
 def run_case(ctx, case):
+    if 'codec' in case:
+        return run_codec_race(ctx, case)
     rng = ctx.rng()
     clock = rig.install_clock(rig.VClock(step=0))
     cert_of = {}
@@ -241,11 +353,20 @@ def run_case(ctx, case):
         nclients = rng.choice((2, 2, 3, 3, 4))
         clients = rng.sample(CLIENTS, nclients)
         hot = rng.random() < 0.4
+        # one history in eight is KMIP 2.0 only: the 2.0 codec consults version-dependent tables while it decodes (outside
+        # the engine lock) and while the engine builds answers; the first client mostly sends frames the 2.0 decoder must
+        # refuse, the others read attributes
+        all20 = rng.random() < 0.125
+        if all20:
+            clients = [c for c in CLIENTS if c[1] == (2, 0)]
+            nclients = len(clients)
+            hot = True
+            ctx.count('kmip20_only_histories')
         if hot:
             ctx.count('hot_object_histories')
         frames = []
         for ci, (ident, version) in enumerate(clients):
-            frames.append(client_requests(rng, ci, ident, version, shared, case['hist'], hot))
+            frames.append(client_requests(rng, ci, ident, version, shared, case['hist'], hot, 0.8 if (all20 and ci == 0) else 0.3))
         if sum(len(f) for f in frames) < 2:
             return
         refused_client = None
